@@ -320,6 +320,10 @@ def strategy(draw):
                            len(positional) + (2 if shape['varargs'] else 0)))
   val = lambda i: st.sampled_from([REQ, REQ, 'C%d' % i, 'C%d' % i, 'C%d' % i])
   args = [draw(val(i)) for i in range(n_pos)]
+  for i in range(min(n_pos, len(G.posonly_params(shape)))):
+    # a marker in a positional-only position can never be filled: keep that outcome rare
+    if args[i] == REQ and draw(st.integers(0, 3)) != 0:
+      args[i] = 'C%d' % i
   if n_pos > len(positional) and draw(st.integers(0, 3)) != 0:
     args[len(positional):] = ['V%d' % i for i in range(n_pos - len(positional))]
   rest = [p for p in pool if p not in positional[:n_pos]]
@@ -330,6 +334,14 @@ def strategy(draw):
       how = 'req'
     if how != 'omit':
       kwargs[p] = REQ if how == 'req' else 'K:' + p
+  if draw(st.integers(0, 3)) == 0:
+    # make sure every marked parameter has a (root-scope) binding: the filled outcome
+    marked = [positional[i] for i in range(min(n_pos, len(positional))) if args[i] == REQ]
+    marked += [p for p, v in kwargs.items() if v == REQ]
+    marked += [p for p in shape['required_defaults'] if p not in positional[:n_pos] and p not in kwargs]
+    for p in marked:
+      if p in pool and not any(b[0] == '' and b[1] == p for b in bindings):
+        bindings.append(['', p, 'BF:' + p])
   # keyword arguments in any order (a **kwargs-absorbed name may come before a named one)
   order = draw(st.permutations(sorted(kwargs)))
   kwargs = {k: kwargs[k] for k in order}
